@@ -14,13 +14,14 @@ VARIABLE l
 
 B(cond, name) == IF cond THEN {} ELSE {name}
 
-JudgeMatch(m, a, b, pfx) ==
-         B(m.lt = OpHolds("<", a, b),  pfx \o "_lt")
-    \cup B(m.le = OpHolds("<=", a, b), pfx \o "_le")
-    \cup B(m.eq = OpHolds("=", a, b),  pfx \o "_eq")
-    \cup B(m.ti = OpHolds("~", a, b),  pfx \o "_tilde")
-    \cup B(m.ge = OpHolds(">=", a, b), pfx \o "_ge")
-    \cup B(m.gt = OpHolds(">", a, b),  pfx \o "_gt")
+\* c = VerCmp(a, b), t = the same without revisions, computed once per event
+JudgeMatch(m, c, t, pfx) ==
+         B(m.lt = OpOnCmp("<", c, t),  pfx \o "_lt")
+    \cup B(m.le = OpOnCmp("<=", c, t), pfx \o "_le")
+    \cup B(m.eq = OpOnCmp("=", c, t),  pfx \o "_eq")
+    \cup B(m.ti = OpOnCmp("~", c, t),  pfx \o "_tilde")
+    \cup B(m.ge = OpOnCmp(">=", c, t), pfx \o "_ge")
+    \cup B(m.gt = OpOnCmp(">", c, t),  pfx \o "_gt")
 
 Judge(e) ==
     LET a == e.a
@@ -28,16 +29,17 @@ Judge(e) ==
     IN  IF ~(IsVer(a) /\ IsVer(b)) THEN {"Domain"}
         ELSE IF VerText(a) # e.atxt \/ VerText(b) # e.btxt THEN {"Render"}
         ELSE IF e.raised # "" THEN {"NoRaise"}
-        ELSE LET c == VerCmp(a, b) IN
-                 B(e.cmp = c, "VerCmp")
+        ELSE LET c == VerCmp(a, b)
+                 t == VerCmp(VNoRev(a), VNoRev(b))
+             IN  B(e.cmp = c, "VerCmp")
             \cup B(e.cpv.lt = (c = -1), "Cpv_lt")
             \cup B(e.cpv.le = (c # 1),  "Cpv_le")
             \cup B(e.cpv.eq = (c = 0),  "Cpv_eq")
             \cup B(e.cpv.ne = (c # 0),  "Cpv_ne")
             \cup B(e.cpv.ge = (c # -1), "Cpv_ge")
             \cup B(e.cpv.gt = (c = 1),  "Cpv_gt")
-            \cup JudgeMatch(e.vm, a, b, "Match")
-            \cup (IF e.vmn_on THEN JudgeMatch(e.vmn, a, b, "MatchNoneRev") ELSE {})
+            \cup JudgeMatch(e.vm, c, t, "Match")
+            \cup (IF e.vmn_on THEN JudgeMatch(e.vmn, c, t, "MatchNoneRev") ELSE {})
 
 TraceInit == l = 0
 TraceNext == /\ l < Len(Tr)
